@@ -467,5 +467,6 @@ func dump(s *smx.SM, keys [][]byte) string {
 // localExpireSweep: what the local-deletion policy's background goroutine does on its own clock.
 // Needs the verif hook rockredis.VerifLocalExpireOnce; without it the sweep is unavailable.
 var localExpireSweep = func(s *smx.SM) error { return fmt.Errorf("no sweep hook") }
+var haveSweep = false
 
 var _ = time.Now
